@@ -68,6 +68,9 @@ Proof.
     + apply Nat.eqb_neq in E. apply get_ge. unfold new_event. cbn. rewrite app_length. cbn. lia.
 Qed.
 
+Lemma new_event_eq ev s : new_event ev s = (length (events s), snd (new_event ev s)).
+Proof. reflexivity. Qed.
+
 Lemma new_event_fst ev s : fst (new_event ev s) = length (events s).
 Proof. reflexivity. Qed.
 
@@ -95,39 +98,54 @@ Definition procs_ok (s : state) (ps : list procrec) : Prop :=
 Definition same_store (s s' : state) : Prop :=
   events s' = events s /\ procs s' = procs s /\ agenda s' = agenda s.
 
-Inductive prim : option evid -> state -> state -> Prop :=
-| p_frame s s' : same_store s s' -> prim None s s'
-| p_new ev s : plain_new ev -> prim None s (snd (new_event ev s))
-| p_sched e prio d s ev : get_event e s = Some ev -> out ev <> None -> prim None s (schedule e prio d s)
-| p_pop m rest s : pop_min (agenda s) = Some (m, rest) ->
-                   prim None s (upd_event (e_ev m) (ev_set_cbs None) (pop_state m rest s))
-| p_addcb e c s : plain_cb c -> prim None s (add_callback e c s)
+Inductive iprim : option evid -> state -> state -> Prop :=
+| p_frame s s' : same_store s s' -> iprim None s s'
+| p_new ev s : plain_new ev -> iprim None s (snd (new_event ev s))
+| p_sched e prio d s ev : get_event e s = Some ev -> out ev <> None -> iprim None s (schedule e prio d s)
+| p_addcb e c s : plain_cb c -> iprim None s (add_callback e c s)
 | p_rmcb e ev l c s : get_event e s = Some ev -> cbs ev = Some l -> plain_cb c ->
-                      prim None s (upd_event e (ev_set_cbs (Some (remove_first c l))) s)
+                      iprim None s (upd_event e (ev_set_cbs (Some (remove_first c l))) s)
 | p_trig e ev o s : get_event e s = Some ev -> out ev = None ->
-                    prim (Some e) s (upd_event e (ev_set_out (Some o)) s)
+                    iprim (Some e) s (upd_event e (ev_set_out (Some o)) s)
 | p_ptrig e ev q o s : get_event e s = Some ev -> kind ev = KProcess q ->
-                       prim None s (upd_event e (ev_set_out (Some o)) s)
-| p_defuse e s : prim None s (upd_event e ev_set_defused s)
-| p_procs ps s : procs_ok s ps -> prim None s (set_procs ps s)
+                       iprim None s (upd_event e (ev_set_out (Some o)) s)
+| p_defuse e s : iprim None s (upd_event e ev_set_defused s)
+| p_procs ps s : procs_ok s ps -> iprim None s (set_procs ps s)
+| p_cond all es s : all_valid es s = true -> iprim None s (fst (call_cond all es s)).
+
+(* the state in which the callbacks of the popped event run *)
+Definition popped (m : entry) (rest : list entry) (s : state) : state :=
+  upd_event (e_ev m) (ev_set_cbs None) (pop_state m rest s).
+
+(* all primitives: what program code and process resumption do ([iprim]), plus the three things only the
+   kernel's step does: pop an event, run a _check callback of the popped event, run _build_value *)
+Inductive prim : option evid -> state -> state -> Prop :=
+| p_inner x s s' : iprim x s s' -> prim x s s'
+| p_pop m rest s : pop_min (agenda s) = Some (m, rest) -> prim None s (popped m rest s)
 | p_check c o oev s : get_event o s = Some oev -> cbs oev = None -> prim None s (cond_check c o s)
-| p_build c s : prim None s (fst (cond_build c s))
-| p_cond all es s : all_valid es s = true -> prim None s (fst (call_cond all es s)).
+| p_build c s : prim None s (fst (cond_build c s)).
 
 Definition lab (x : option evid) : list evid := match x with Some e => [e] | None => [] end.
 
-Inductive ptrace : list evid -> state -> state -> Prop :=
-| pt_nil s : ptrace [] s s
-| pt_cons x X s s1 s2 : prim x s s1 -> ptrace X s1 s2 -> ptrace (lab x ++ X) s s2.
+Inductive ltrace (R : option evid -> state -> state -> Prop) : list evid -> state -> state -> Prop :=
+| pt_nil s : ltrace R [] s s
+| pt_cons x X s s1 s2 : R x s s1 -> ltrace R X s1 s2 -> ltrace R (lab x ++ X) s s2.
 
-Lemma pt_one x s s' : prim x s s' -> ptrace (lab x) s s'.
+Notation ptrace := (ltrace prim).
+Notation iptrace := (ltrace iprim).
+
+Lemma pt_one {R : option evid -> state -> state -> Prop} x s s' : R x s s' -> ltrace R (lab x) s s'.
 Proof. intros H. rewrite <- (app_nil_r (lab x)). econstructor; [exact H|constructor]. Qed.
 
-Lemma pt_app X1 X2 s s1 s2 : ptrace X1 s s1 -> ptrace X2 s1 s2 -> ptrace (X1 ++ X2) s s2.
+Lemma pt_app {R : option evid -> state -> state -> Prop} X1 X2 s s1 s2 : ltrace R X1 s s1 -> ltrace R X2 s1 s2 -> ltrace R (X1 ++ X2) s s2.
 Proof.
   induction 1 as [|x X s s1' s2' P T IH]; intros H2; [exact H2|].
   rewrite <- app_assoc. econstructor; [exact P|apply IH, H2].
 Qed.
+
+Lemma ltrace_mono (R R' : option evid -> state -> state -> Prop) :
+  (forall x s s', R x s s' -> R' x s s') -> forall X s s', ltrace R X s s' -> ltrace R' X s s'.
+Proof. intros H X s s' T. induction T; econstructor; eauto. Qed.
 
 (* "some trace": the form used by the decomposition lemmas that do not care about labels *)
 Definition steps (s s' : state) : Prop := exists X, ptrace X s s'.
@@ -308,23 +326,29 @@ Proof.
   - cbn [fst]. eapply grows_trans; [exact X1|]. eapply grows_trans; [apply grows_cond_subscribe|apply grows_add_callback].
 Qed.
 
-Lemma prim_grows x s s' : prim x s s' -> grows s s'.
+Lemma iprim_grows x s s' : iprim x s s' -> grows s s'.
 Proof.
   intros H. destruct H.
   - destruct H as (E & P & _). apply grows_same; assumption.
   - apply grows_new.
   - apply grows_schedule.
-  - eapply grows_trans with (s2 := pop_state m rest s); [apply grows_same; reflexivity|].
-    apply grows_upd. intros ev _. apply ev_le_set_cbs_none.
   - apply grows_add_callback.
   - apply grows_upd. intros ev0 H2. rewrite H in H2. injection H2 as <-. apply ev_le_set_cbs. congruence.
   - apply grows_upd. intros ev0 _. apply ev_le_set_out.
   - apply grows_upd. intros ev0 _. apply ev_le_set_out.
   - apply grows_upd. intros ev0 _. apply ev_le_set_defused.
   - destruct H as [H _]. split; [intros e ev He; exists ev; split; [exact He|apply ev_le_refl]|exact H].
+  - apply grows_call_cond.
+Qed.
+
+Lemma prim_grows x s s' : prim x s s' -> grows s s'.
+Proof.
+  intros H. destruct H.
+  - eapply iprim_grows; eassumption.
+  - unfold popped. eapply grows_trans with (s2 := pop_state m rest s); [apply grows_same; reflexivity|].
+    apply grows_upd. intros ev _. apply ev_le_set_cbs_none.
   - apply grows_cond_check.
   - apply grows_cond_build.
-  - apply grows_call_cond.
 Qed.
 
 Lemma steps_grows s s' : steps s s' -> grows s s'.
@@ -344,13 +368,64 @@ Proof.
   eapply kind_le_process; eassumption.
 Qed.
 
+Lemma procs_cond_check c o s : procs (cond_check c o s) = procs s.
+Proof.
+  unfold cond_check.
+  destruct (get_event c s); [|reflexivity]. destruct (get_event o s); [|reflexivity].
+  destruct (out e); [reflexivity|]. destruct (kind e); try reflexivity.
+  destruct (out e0) as [[?|?]|]; [destruct (cond_evaluate _ _ _)| |destruct (cond_evaluate _ _ _)]; reflexivity.
+Qed.
+
+Lemma procs_remove_check_from c o s : procs (remove_check_from c o s) = procs s.
+Proof.
+  unfold remove_check_from. destruct (get_event o s); [|reflexivity]. destruct (cbs e); [|reflexivity].
+  destruct (mem_cb _ _); reflexivity.
+Qed.
+
+Lemma procs_remove_checks fuel : forall c s s', remove_checks fuel c s = Some s' -> procs s' = procs s.
+Proof.
+  induction fuel as [|f IH]; intros c0 s0 s0'; cbn [remove_checks]; [discriminate|].
+  destruct (get_event c0 s0); [|discriminate].
+  destruct (kind e); try (intros H; injection H as <-; reflexivity).
+  generalize s0 s0'. clear s0 s0'. induction ops as [|o t IHo]; intros s0 s0'; cbn [remove_ops].
+  - intros H; injection H as <-. reflexivity.
+  - pose proof (procs_remove_check_from c0 o s0) as RC.
+    destruct (get_event o s0); [|discriminate]. destruct (is_cond e0).
+    + destruct (remove_checks f o (remove_check_from c0 o s0)) as [s2|] eqn:R2; [|discriminate].
+      intros H. rewrite (IHo _ _ H), (IH _ _ _ R2). exact RC.
+    + intros H. rewrite (IHo _ _ H). exact RC.
+Qed.
+
+Lemma procs_cond_build c s : procs (fst (cond_build c s)) = procs s.
+Proof.
+  unfold cond_build. destruct (remove_checks (S c) c s) as [s1|] eqn:R1; [|reflexivity].
+  pose proof (procs_remove_checks _ _ _ _ R1) as E1.
+  destruct (get_event c s1); [|exact E1]. destruct (out e) as [[?|?]|]; try exact E1.
+  destruct (kind e); try exact E1. destruct (populate _ _ _); exact E1.
+Qed.
+
+Lemma procs_cond_subscribe c ops : forall s, procs (cond_subscribe c ops s) = procs s.
+Proof.
+  induction ops as [|o t IH]; intros s0; cbn [cond_subscribe]; [reflexivity|].
+  rewrite IH. destruct (get_event o s0); [|reflexivity]. destruct (is_processed e); [|reflexivity].
+  apply procs_cond_check.
+Qed.
+
+Lemma procs_call_cond all es s : procs (fst (call_cond all es s)) = procs s.
+Proof.
+  unfold call_cond. destruct (negb (all_valid es s)); [reflexivity|].
+  rewrite (new_event_eq _ s). cbv beta iota.
+  destruct es as [|e0 t]; cbn [fst]; [reflexivity|].
+  unfold add_callback, upd_event. cbn [procs set_events]. rewrite procs_cond_subscribe. reflexivity.
+Qed.
+
 Lemma prim_procs_wf x s s' : prim x s s' -> procs_wf s -> procs_wf s'.
 Proof.
   intros P W. pose proof (prim_grows _ _ _ P) as G.
   assert (Gen : procs s' = procs s -> procs_wf s').
   { intros E p pr H. unfold get_proc in H. rewrite E in H. destruct (W _ _ H) as (ev & q & A & B).
     destruct (grows_kproc _ _ _ _ _ G A B) as (ev' & A' & B'). exists ev', q. auto. }
-  destruct P; try (apply Gen; reflexivity).
+  destruct P as [x s s' P| | |]; [destruct P|..]; try (apply Gen; reflexivity).
   - apply Gen. apply H.
   - (* p_procs *)
     destruct H as [H1 H2]. intros p pr Hp. unfold get_proc in Hp. cbn in Hp.
@@ -358,39 +433,9 @@ Proof.
     + destruct (H1 _ _ E0) as (pr' & A & B). rewrite A in Hp. injection Hp as <-.
       destruct (W _ _ E0) as (ev & q & C & D). rewrite B. exists ev, q. split; [exact C|exact D].
     + destruct (H2 _ _ Hp E0) as (ev & q & C & D). exists ev, q. split; [exact C|exact D].
-  - apply Gen. unfold cond_check.
-    destruct (get_event c s); [|reflexivity]. destruct (get_event o s); [|reflexivity].
-    destruct (out e); [reflexivity|]. destruct (kind e); try reflexivity.
-    destruct (out e0) as [[?|?]|]; [destruct (cond_evaluate _ _ _)| |destruct (cond_evaluate _ _ _)]; reflexivity.
-  - apply Gen. clear. unfold cond_build.
-    assert (R : forall fuel c s s', remove_checks fuel c s = Some s' -> procs s' = procs s).
-    { induction fuel as [|f IH]; intros c0 s0 s0'; cbn [remove_checks]; [discriminate|].
-      destruct (get_event c0 s0); [|discriminate].
-      destruct (kind e); try (intros H; injection H as <-; reflexivity).
-      generalize s0 s0'. clear s0 s0'. induction ops as [|o t IHo]; intros s0 s0'; cbn [remove_ops].
-      - intros H; injection H as <-. reflexivity.
-      - assert (RC : procs (remove_check_from c0 o s0) = procs s0).
-        { unfold remove_check_from. destruct (get_event o s0); [|reflexivity]. destruct (cbs e0); [|reflexivity].
-          destruct (mem_cb _ _); reflexivity. }
-        destruct (get_event o s0); [|discriminate]. destruct (is_cond e0).
-        + destruct (remove_checks f o (remove_check_from c0 o s0)) as [s2|] eqn:R2; [|discriminate].
-          intros H. rewrite (IHo _ _ H), (IH _ _ _ R2). exact RC.
-        + intros H. rewrite (IHo _ _ H). exact RC. }
-    destruct (remove_checks (S c) c s) as [s1|] eqn:R1; [|reflexivity].
-    pose proof (R _ _ _ _ R1) as E1.
-    destruct (get_event c s1); [|exact E1]. destruct (out e) as [[?|?]|]; try exact E1.
-    destruct (kind e); try exact E1. destruct (populate _ _ _); exact E1.
-  - apply Gen. unfold call_cond. destruct (negb (all_valid es s)); [reflexivity|].
-    assert (S1 : forall c ops s0, procs (cond_subscribe c ops s0) = procs s0).
-    { intros c ops. induction ops as [|o t IH]; intros s0; cbn [cond_subscribe]; [reflexivity|].
-      rewrite IH. destruct (get_event o s0); [|reflexivity]. destruct (is_processed e); [|reflexivity].
-      unfold cond_check. destruct (get_event c s0); [|reflexivity]. destruct (get_event o s0); [|reflexivity].
-      destruct (out e0); [reflexivity|]. destruct (kind e0); try reflexivity.
-      destruct (out e1) as [[?|?]|]; [destruct (cond_evaluate _ _ _)| |destruct (cond_evaluate _ _ _)]; reflexivity. }
-    destruct (new_event (mkEvent (Some []) None false (KCond all es 0)) s) as [c s1] eqn:NE.
-    assert (P1 : procs s1 = procs s) by (unfold new_event in NE; injection NE as _ <-; reflexivity).
-    destruct es as [|e0 t]; cbn [fst]; [exact P1|].
-    unfold add_callback, upd_event. cbn [procs set_events]. rewrite S1. exact P1.
+  - apply Gen, procs_call_cond.
+  - apply Gen, procs_cond_check.
+  - apply Gen, procs_cond_build.
 Qed.
 
 Lemma steps_procs_wf s s' : steps s s' -> procs_wf s -> procs_wf s'.
@@ -416,7 +461,7 @@ Definition trig_of (k : call) (s : state) : list evid :=
 
 Inductive xstep (codes : list prog) : list evid -> state -> state -> Prop :=
 | xs_call k s : xstep codes (trig_of k s) s (fst (do_call codes k s))
-| xs_prim s s' : prim None s s' -> xstep codes [] s s'.
+| xs_prim s s' : iprim None s s' -> xstep codes [] s s'.
 
 Inductive xtrace (codes : list prog) : list evid -> state -> state -> Prop :=
 | xt_nil s : xtrace codes [] s s
@@ -433,7 +478,7 @@ Definition xsteps (codes : list prog) (s s' : state) : Prop := exists X, xtrace 
 Lemma xsteps_refl codes s : xsteps codes s s. Proof. exists []. constructor. Qed.
 Lemma xsteps_trans codes s s1 s2 : xsteps codes s s1 -> xsteps codes s1 s2 -> xsteps codes s s2.
 Proof. intros [X1 H1] [X2 H2]. exists (X1 ++ X2). eapply xt_app; eassumption. Qed.
-Lemma xsteps_prim codes s s' : prim None s s' -> xsteps codes s s'.
+Lemma xsteps_prim codes s s' : iprim None s s' -> xsteps codes s s'.
 Proof. intros H. exists ([] ++ []). econstructor; [apply xs_prim, H|constructor]. Qed.
 Lemma xsteps_call codes k s : xsteps codes s (fst (do_call codes k s)).
 Proof. exists (trig_of k s ++ []). econstructor; [apply xs_call|constructor]. Qed.
@@ -450,7 +495,7 @@ Proof.
 Qed.
 
 Lemma pt_trigger_ext e ev o s :
-  get_event e s = Some ev -> out ev = None -> ptrace [e] s (trigger_event e o s).
+  get_event e s = Some ev -> out ev = None -> iptrace [e] s (trigger_event e o s).
 Proof.
   intros H O. unfold trigger_event. change [e] with (lab (Some e) ++ lab None ++ []).
   econstructor; [eapply p_trig; eassumption|]. econstructor; [|constructor].
@@ -460,10 +505,7 @@ Qed.
 Lemma plain_nil_cbs k : (match k with KCond _ _ _ => False | _ => True end) -> forall o d, plain_new (mkEvent (Some []) o d k).
 Proof. intros K o d. split; [exists []; split; [reflexivity|intros c []]|exact K]. Qed.
 
-Lemma new_event_eq ev s : new_event ev s = (length (events s), snd (new_event ev s)).
-Proof. reflexivity. Qed.
-
-Lemma do_call_ptrace codes k s : ptrace (trig_of k s) s (fst (do_call codes k s)).
+Lemma do_call_ptrace codes k s : iptrace (trig_of k s) s (fst (do_call codes k s)).
 Proof.
   destruct k; cbn [do_call trig_of].
   - (* timeout *)
@@ -476,7 +518,7 @@ Proof.
   - (* event *)
     unfold call_event. set (EV := mkEvent (Some []) None false KPlain).
     rewrite (new_event_eq EV s). cbv beta iota. cbn [fst].
-    apply (pt_one None), p_new, plain_nil_cbs, I.
+    apply (@pt_one iprim None), p_new, plain_nil_cbs, I.
   - (* succeed *)
     unfold call_succeed. destruct (get_event e s) as [ev|] eqn:H; [|constructor].
     unfold is_triggered. destruct (out ev) eqn:O; [constructor|]. cbn [fst].
@@ -524,27 +566,30 @@ Proof.
     eapply p_sched; [apply get_new_new|cbn; discriminate].
   - (* all_of *)
     destruct (all_valid es s) eqn:V.
-    + apply (pt_one None). apply p_cond, V.
+    + apply (@pt_one iprim None). apply p_cond, V.
     + unfold call_cond. rewrite V. constructor.
   - destruct (all_valid es s) eqn:V.
-    + apply (pt_one None). apply p_cond, V.
+    + apply (@pt_one iprim None). apply p_cond, V.
     + unfold call_cond. rewrite V. constructor.
   - (* probe *)
     unfold call_probe. destruct (get_event e s) as [ev|]; [|constructor].
-    destruct (is_processed ev); [constructor|]. apply (pt_one None). apply p_addcb. exact I.
+    destruct (is_processed ev); [constructor|]. apply (@pt_one iprim None). apply p_addcb. exact I.
   - rewrite call_query_state. constructor.
   - constructor.
   - constructor.
-  - apply (pt_one None). apply p_frame. repeat split.
+  - apply (@pt_one iprim None). apply p_frame. repeat split.
   - constructor.
-  - apply (pt_one None). apply p_frame. repeat split.
+  - apply (@pt_one iprim None). apply p_frame. repeat split.
 Qed.
 
-Lemma xstep_ptrace codes X s s' : xstep codes X s s' -> ptrace X s s'.
-Proof. intros [k s0|s0 s0' P]; [apply do_call_ptrace|apply (pt_one None), P]. Qed.
+Lemma xstep_iptrace codes X s s' : xstep codes X s s' -> iptrace X s s'.
+Proof. intros [k s0|s0 s0' P]; [apply do_call_ptrace|apply (@pt_one iprim None), P]. Qed.
+
+Lemma xtrace_iptrace codes X s s' : xtrace codes X s s' -> iptrace X s s'.
+Proof. induction 1 as [|X1 X2 s s1 s2 P T IH]; [constructor|]. eapply pt_app; [eapply xstep_iptrace, P|exact IH]. Qed.
 
 Lemma xtrace_ptrace codes X s s' : xtrace codes X s s' -> ptrace X s s'.
-Proof. induction 1 as [|X1 X2 s s1 s2 P T IH]; [constructor|]. eapply pt_app; [eapply xstep_ptrace, P|exact IH]. Qed.
+Proof. intros H. eapply ltrace_mono; [|eapply xtrace_iptrace, H]. intros; apply p_inner; assumption. Qed.
 
 Lemma xsteps_steps codes s s' : xsteps codes s s' -> steps s s'.
 Proof. intros [X H]. exists X. eapply xtrace_ptrace, H. Qed.
@@ -644,10 +689,10 @@ Proof.
   destruct (get_event t s) as [tev|] eqn:Ht; [|apply xsteps_refl].
   destruct (cbs tev) as [l|] eqn:Cl; [|apply xsteps_refl].
   destruct (mem_cb (CbResume p) l); [|apply xsteps_refl].
-  assert (P1 : prim None s (upd_event t (ev_set_cbs (Some (remove_first (CbResume p) l))) s)).
+  assert (P1 : iprim None s (upd_event t (ev_set_cbs (Some (remove_first (CbResume p) l))) s)).
   { eapply p_rmcb; [exact Ht|exact Cl|exact I]. }
   eapply xsteps_trans; [apply xsteps_prim, P1|]. apply xs_resume_proc.
-  eapply prim_procs_wf; eassumption.
+  eapply prim_procs_wf; [apply p_inner, P1|exact W].
 Qed.
 
 Lemma stop_cb_state e s : fst (stop_cb e s) = s.
@@ -658,26 +703,69 @@ Definition processed_in (e : evid) (s : state) : Prop := exists ev, get_event e 
 Lemma grows_processed s s' e : grows s s' -> processed_in e s -> processed_in e s'.
 Proof. intros [G _] (ev & H & C). destruct (G _ _ H) as (ev' & H' & _ & L & _). exists ev'. auto. Qed.
 
-Lemma xs_run_cb codes fuel e c s :
-  procs_wf s -> processed_in e s -> xsteps codes s (fst (run_cb fuel codes e c s)).
+(* ---- whole executions: program activity, pops, _check and _build_value callbacks ---- *)
+
+Inductive estep (codes : list prog) : list evid -> state -> state -> Prop :=
+| es_x X s s' : xtrace codes X s s' -> estep codes X s s'
+| es_pop m rest s : pop_min (agenda s) = Some (m, rest) -> estep codes [] s (popped m rest s)
+| es_check c o oev s : get_event o s = Some oev -> cbs oev = None -> estep codes [] s (cond_check c o s)
+| es_build c s : estep codes [] s (fst (cond_build c s)).
+
+Inductive etrace (codes : list prog) : list evid -> state -> state -> Prop :=
+| et_nil s : etrace codes [] s s
+| et_cons X1 X2 s s1 s2 : estep codes X1 s s1 -> etrace codes X2 s1 s2 -> etrace codes (X1 ++ X2) s s2.
+
+Lemma et_app codes X1 X2 s s1 s2 : etrace codes X1 s s1 -> etrace codes X2 s1 s2 -> etrace codes (X1 ++ X2) s s2.
 Proof.
-  intros W (ev & He & Ce). destruct c; cbn [run_cb fst].
-  - apply xs_resume_proc, W.
-  - eapply xsteps_prim, p_check; eassumption.
-  - apply xsteps_prim, p_build.
-  - apply xs_do_interruption, W.
-  - rewrite stop_cb_state. apply xsteps_refl.
-  - apply xsteps_prim, p_frame. repeat split.
+  induction 1 as [|Y1 Y2 s s1' s2' P T IH]; intros H2; [exact H2|].
+  rewrite <- app_assoc. econstructor; [exact P|apply IH, H2].
 Qed.
 
-Lemma xs_run_callbacks codes fuel e l : forall s,
-  procs_wf s -> processed_in e s -> xsteps codes s (fst (run_callbacks fuel codes e l s)).
+Definition esteps (codes : list prog) (s s' : state) : Prop := exists X, etrace codes X s s'.
+
+Lemma esteps_refl codes s : esteps codes s s. Proof. exists []. constructor. Qed.
+Lemma esteps_trans codes s s1 s2 : esteps codes s s1 -> esteps codes s1 s2 -> esteps codes s s2.
+Proof. intros [X1 H1] [X2 H2]. exists (X1 ++ X2). eapply et_app; eassumption. Qed.
+Lemma esteps_one codes X s s' : estep codes X s s' -> esteps codes s s'.
+Proof. intros H. exists (X ++ []). econstructor; [exact H|constructor]. Qed.
+Lemma esteps_x codes s s' : xsteps codes s s' -> esteps codes s s'.
+Proof. intros [X H]. eapply esteps_one, es_x, H. Qed.
+
+Lemma estep_ptrace codes X s s' : estep codes X s s' -> ptrace X s s'.
 Proof.
-  induction l as [|c t IH]; intros s W Pe; cbn [run_callbacks fst]; [apply xsteps_refl|].
-  pose proof (xs_run_cb codes fuel e c s W Pe) as X. destruct (run_cb fuel codes e c s) as [s1 r]. cbn [fst] in X.
-  destruct r; try exact X. eapply xsteps_trans; [exact X|]. apply IH.
-  - eapply steps_procs_wf; [eapply xsteps_steps, X|exact W].
-  - eapply grows_processed; [eapply steps_grows, xsteps_steps, X|exact Pe].
+  intros [X0 s0 s0' H|m rest s0 H|c o oev s0 H1 H2|c s0].
+  - eapply xtrace_ptrace, H.
+  - apply (@pt_one prim None), p_pop, H.
+  - apply (@pt_one prim None). eapply p_check; eassumption.
+  - apply (@pt_one prim None), p_build.
+Qed.
+
+Lemma etrace_ptrace codes X s s' : etrace codes X s s' -> ptrace X s s'.
+Proof. induction 1 as [|X1 X2 s s1 s2 P T IH]; [constructor|]. eapply pt_app; [eapply estep_ptrace, P|exact IH]. Qed.
+
+Lemma esteps_steps codes s s' : esteps codes s s' -> steps s s'.
+Proof. intros [X H]. exists X. eapply etrace_ptrace, H. Qed.
+
+Lemma es_run_cb codes fuel e c s :
+  procs_wf s -> processed_in e s -> esteps codes s (fst (run_cb fuel codes e c s)).
+Proof.
+  intros W (ev & He & Ce). destruct c; cbn [run_cb fst].
+  - apply esteps_x, xs_resume_proc, W.
+  - eapply esteps_one, es_check; eassumption.
+  - eapply esteps_one, es_build.
+  - apply esteps_x, xs_do_interruption, W.
+  - rewrite stop_cb_state. apply esteps_refl.
+  - apply esteps_x, xsteps_prim, p_frame. repeat split.
+Qed.
+
+Lemma es_run_callbacks codes fuel e l : forall s,
+  procs_wf s -> processed_in e s -> esteps codes s (fst (run_callbacks fuel codes e l s)).
+Proof.
+  induction l as [|c t IH]; intros s W Pe; cbn [run_callbacks fst]; [apply esteps_refl|].
+  pose proof (es_run_cb codes fuel e c s W Pe) as X. destruct (run_cb fuel codes e c s) as [s1 r]. cbn [fst] in X.
+  destruct r; try exact X. eapply esteps_trans; [exact X|]. apply IH.
+  - eapply steps_procs_wf; [eapply esteps_steps, X|exact W].
+  - eapply grows_processed; [eapply steps_grows, esteps_steps, X|exact Pe].
 Qed.
 
 Lemma upd_nth_id {A} (f : A -> A) n l : (forall x, nth_error l n = Some x -> f x = x) -> upd_nth n f l = l.
@@ -689,10 +777,6 @@ Qed.
 
 Lemma upd_event_id e f s : (forall ev, get_event e s = Some ev -> f ev = ev) -> upd_event e f s = s.
 Proof. intros H. unfold upd_event. rewrite upd_nth_id by exact H. destruct s; reflexivity. Qed.
-
-(* the state in which the callbacks of the popped event run *)
-Definition popped (m : entry) (rest : list entry) (s : state) : state :=
-  upd_event (e_ev m) (ev_set_cbs None) (pop_state m rest s).
 
 Lemma step_unfold fuel codes s s' r :
   step fuel codes s = (s', r) ->
@@ -727,14 +811,14 @@ Proof.
   intros H. exists (ev_set_cbs None ev). split; [|reflexivity]. unfold popped. apply get_upd_same. exact H.
 Qed.
 
-Lemma xs_step codes fuel s s' r : procs_wf s -> step fuel codes s = (s', r) -> xsteps codes s s'.
+Lemma es_step codes fuel s s' r : procs_wf s -> step fuel codes s = (s', r) -> esteps codes s s'.
 Proof.
-  intros W H. apply step_unfold in H. destruct H as [(_ & -> & _)|(m & rest & Pm & H)]; [apply xsteps_refl|].
-  assert (P1 : prim None s (popped m rest s)) by (apply p_pop, Pm).
-  destruct H as [(_ & -> & _)|[(ev & _ & _ & -> & _)|(ev & l & r2 & He & Cl & R & _)]]; try (apply xsteps_prim, P1).
-  eapply xsteps_trans; [apply xsteps_prim, P1|].
-  pose proof (xs_run_callbacks codes fuel (e_ev m) l (popped m rest s)) as X. rewrite R in X. apply X.
-  - eapply prim_procs_wf; eassumption.
+  intros W H. apply step_unfold in H. destruct H as [(_ & -> & _)|(m & rest & Pm & H)]; [apply esteps_refl|].
+  assert (P1 : esteps codes s (popped m rest s)) by (eapply esteps_one, es_pop, Pm).
+  destruct H as [(_ & -> & _)|[(ev & _ & _ & -> & _)|(ev & l & r2 & He & Cl & R & _)]]; try exact P1.
+  eapply esteps_trans; [exact P1|].
+  pose proof (es_run_callbacks codes fuel (e_ev m) l (popped m rest s)) as X. rewrite R in X. apply X.
+  - eapply steps_procs_wf; [eapply esteps_steps, P1|exact W].
   - eapply popped_processed, He.
 Qed.
 
@@ -761,19 +845,19 @@ Proof.
     destruct (is_processed ev); [intros H; injection H as <- _; reflexivity|discriminate].
 Qed.
 
-Lemma xs_run_loop codes fuel u n : forall s, procs_wf s -> xsteps codes s (fst (run_loop n fuel codes u s)).
+Lemma es_run_loop codes fuel u n : forall s, procs_wf s -> esteps codes s (fst (run_loop n fuel codes u s)).
 Proof.
-  induction n as [|n IH]; intros s W; cbn [run_loop fst]; [apply xsteps_refl|].
-  destruct (step fuel codes s) as [s1 r] eqn:S. pose proof (xs_step codes fuel s s1 r W S) as X.
-  destruct r; try exact X. eapply xsteps_trans; [exact X|]. apply IH.
-  eapply steps_procs_wf; [eapply xsteps_steps, X|exact W].
+  induction n as [|n IH]; intros s W; cbn [run_loop fst]; [apply esteps_refl|].
+  destruct (step fuel codes s) as [s1 r] eqn:S. pose proof (es_step codes fuel s s1 r W S) as X.
+  destruct r; try exact X. eapply esteps_trans; [exact X|]. apply IH.
+  eapply steps_procs_wf; [eapply esteps_steps, X|exact W].
 Qed.
 
-Lemma xs_run codes fuel u s : procs_wf s -> xsteps codes s (fst (run fuel codes u s)).
+Lemma es_run codes fuel u s : procs_wf s -> esteps codes s (fst (run fuel codes u s)).
 Proof.
   intros W. unfold run. destruct (run_prelude u s) as [[s1 r]|s1] eqn:P.
-  - apply run_prelude_inl in P. subst s1. apply xsteps_refl.
-  - pose proof (xs_run_prelude codes u s s1 P) as X. eapply xsteps_trans; [exact X|]. apply xs_run_loop.
+  - apply run_prelude_inl in P. subst s1. apply esteps_refl.
+  - pose proof (xs_run_prelude codes u s s1 P) as X. eapply esteps_trans; [apply esteps_x, X|]. apply es_run_loop.
     eapply steps_procs_wf; [eapply xsteps_steps, X|exact W].
 Qed.
 
@@ -786,22 +870,22 @@ Proof. intros p pr H. unfold get_proc in H. cbn in H. destruct p; discriminate. 
 (* every state an execution passes through (also in the middle of a step), with the events X that received
    an explicit succeed / fail *)
 Definition reach (codes : list prog) (X : list evid) (s : state) : Prop :=
-  exists t0, xtrace codes X (init_state t0) s.
+  exists t0, etrace codes X (init_state t0) s.
 
 Lemma reach_procs_wf codes X s : reach codes X s -> procs_wf s.
-Proof. intros (t0 & H). eapply steps_procs_wf; [exists X; eapply xtrace_ptrace, H|apply procs_wf_init]. Qed.
+Proof. intros (t0 & H). eapply steps_procs_wf; [exists X; eapply etrace_ptrace, H|apply procs_wf_init]. Qed.
 
 Lemma reach_init codes t0 : reach codes [] (init_state t0).
 Proof. exists t0. constructor. Qed.
 
-Lemma reach_xsteps codes X s s' : reach codes X s -> xsteps codes s s' -> exists X', reach codes (X ++ X') s'.
-Proof. intros (t0 & H) (X' & H'). exists X', t0. eapply xt_app; eassumption. Qed.
+Lemma reach_esteps codes X s s' : reach codes X s -> esteps codes s s' -> exists X', reach codes (X ++ X') s'.
+Proof. intros (t0 & H) (X' & H'). exists X', t0. eapply et_app; eassumption. Qed.
 
 Lemma reach_exec_top {A} codes X (f : frag A) s : reach codes X s -> exists X', reach codes (X ++ X') (fst (exec_top codes f s)).
-Proof. intros R. eapply reach_xsteps; [exact R|apply xs_run_frag]. Qed.
+Proof. intros R. eapply reach_esteps; [exact R|apply esteps_x, xs_run_frag]. Qed.
 
 Lemma reach_step codes X fuel s s' r : reach codes X s -> step fuel codes s = (s', r) -> exists X', reach codes (X ++ X') s'.
-Proof. intros R H. eapply reach_xsteps; [exact R|]. eapply xs_step; [eapply reach_procs_wf, R|exact H]. Qed.
+Proof. intros R H. eapply reach_esteps; [exact R|]. eapply es_step; [eapply reach_procs_wf, R|exact H]. Qed.
 
 Lemma reach_run codes X fuel u s : reach codes X s -> exists X', reach codes (X ++ X') (fst (run fuel codes u s)).
-Proof. intros R. eapply reach_xsteps; [exact R|]. apply xs_run. eapply reach_procs_wf, R. Qed.
+Proof. intros R. eapply reach_esteps; [exact R|]. apply es_run. eapply reach_procs_wf, R. Qed.
